@@ -12,7 +12,7 @@ def session(exe, fen, park, go='go infinite', stop_delay=0.0, wait=6.0, extra_en
         env['VERIF_PARK'] = '%d:%d:%d' % park
     if extra_env:
         env.update(extra_env)
-    p = subprocess.Popen([exe, 'uci'], stdin=subprocess.PIPE, stdout=subprocess.PIPE, stderr=subprocess.PIPE, text=True, env=env, bufsize=1)
+    p = subprocess.Popen([exe, 'uci'], stdin=subprocess.PIPE, stdout=subprocess.PIPE, stderr=subprocess.PIPE, text=True, errors='replace', env=env, bufsize=1)
     lines, errs = [], []
     t0 = time.time()
 
@@ -97,7 +97,7 @@ def go_again_session(exe, fen, park_ms=500, wait=8.0):
     env = dict(os.environ)
     env['ASAN_OPTIONS'] = 'detect_leaks=0'
     env['VERIF_PARK'] = '8:1:%d' % park_ms
-    p = subprocess.Popen([exe, 'uci'], stdin=subprocess.PIPE, stdout=subprocess.PIPE, stderr=subprocess.PIPE, text=True, env=env, bufsize=1)
+    p = subprocess.Popen([exe, 'uci'], stdin=subprocess.PIPE, stdout=subprocess.PIPE, stderr=subprocess.PIPE, text=True, errors='replace', env=env, bufsize=1)
     lines, errs = [], []
     t0 = time.time()
 
